@@ -64,7 +64,7 @@ class Store:
             self.st.conn.close()
             self.ds = Datastore(SqliteStorage, testing=True, filepath=self.path, enable_lazy_commit=self.lazy)
         elif self.backend == "peewee":
-            self.st.db.close()
+            close_peewee(self.st.db)
             self.ds = Datastore(PeeweeStorage, testing=True, filepath=self.path)
         self.st = self.ds.storage_strategy
 
@@ -73,10 +73,25 @@ class Store:
             if self.backend == "sqlite":
                 self.st.conn.close()
             elif self.backend == "peewee":
-                self.st.db.close()
+                close_peewee(self.st.db)
         finally:
             if self.dir:
                 shutil.rmtree(self.dir, ignore_errors=True)
+
+
+def close_peewee(db):
+    """close peewee's database object even when the code under test left a transaction open on it (the object is one
+    per process: the next case must be able to use it; what was observed before stands)"""
+    for _ in range(8):
+        try:
+            db.close()
+            return
+        except Exception:  # noqa: BLE001 - "Attempting to close database while transaction is open"
+            try:
+                if not db.session_rollback():
+                    db._state.reset()
+            except Exception:  # noqa: BLE001
+                db._state.reset()
 
 
 def created_us(text):
